@@ -8,10 +8,10 @@ use std::path::{Path, PathBuf};
 use std::process::Command;
 use serde_json::{json, Value, Map};
 use crate::model::{XRule, sort_rules, bundle_order};
-use crate::project::{decode_history, decode_table, rule_ticket, sources_ticket};
-use crate::run::Rng;
+use crate::decode::{decode_history, decode_table, rule_ticket, sources_ticket};
+use crate::gen::Rng;
 use crate::sha256::{ticket_of, b62};
-use crate::drv_random::{gen_rules, profile};
+use crate::gen::{gen_rules, profile};
 
 fn sq(s : &str) -> String { format!("'{}'", s.replace('\'', "'\\''")) }
 
